@@ -894,23 +894,15 @@ func (s *Service) subscribe() error {
 		}
 	}
 	for _, p := range s.resetAccess {
-		pattern := "access." + p
-		s.tracef("sub %s", pattern)
-		if s.queueGroup == "" {
-			_, err = s.nc.ChanSubscribe(pattern, s.inCh)
-		} else {
-			_, err = s.nc.ChanQueueSubscribe(pattern, s.queueGroup, s.inCh)
-		}
-		if err != nil {
-			return err
-		}
+		patterns = append(patterns, "access."+p)
 	}
 
 next:
 	for i, pattern := range patterns {
-		// Skip patterns that overlap one another
+		// Skip patterns that are covered by another pattern. Among patterns
+		// covering each other, such as duplicates, the first one is kept.
 		for j, mpattern := range patterns {
-			if i != j && Pattern(mpattern).Matches(pattern) {
+			if i != j && Pattern(mpattern).Matches(pattern) && (j < i || !Pattern(pattern).Matches(mpattern)) {
 				continue next
 			}
 		}
